@@ -631,3 +631,72 @@ impl<'de, 'c, 'g> Visitor<'de> for AnyV<'c, 'g> {
 		Ok(json!({"t": "map", "kv": out}))
 	}
 }
+
+/// A target that keeps nothing: visits everything through `deserialize_any` (sequences and maps element by
+/// element) and folds what it sees into a number. It never allocates, so any allocation observed while it is
+/// being deserialized was made by the deserializer itself.
+pub struct SumSeed;
+pub struct Sum(pub u64);
+impl<'de> de::Deserialize<'de> for Sum {
+	fn deserialize<D: Deserializer<'de>>(d: D) -> Result<Self, D::Error> {
+		d.deserialize_any(SumV).map(Sum)
+	}
+}
+impl<'de> DeserializeSeed<'de> for SumSeed {
+	type Value = u64;
+	fn deserialize<D: Deserializer<'de>>(self, d: D) -> Result<u64, D::Error> {
+		d.deserialize_any(SumV)
+	}
+}
+struct SumV;
+impl<'de> Visitor<'de> for SumV {
+	type Value = u64;
+	fn expecting(&self, f: &mut fmt::Formatter) -> fmt::Result {
+		write!(f, "anything")
+	}
+	fn visit_unit<E: de::Error>(self) -> Result<u64, E> {
+		Ok(1)
+	}
+	fn visit_bool<E: de::Error>(self, v: bool) -> Result<u64, E> {
+		Ok(2 + v as u64)
+	}
+	fn visit_i32<E: de::Error>(self, v: i32) -> Result<u64, E> {
+		Ok(v as u64)
+	}
+	fn visit_i64<E: de::Error>(self, v: i64) -> Result<u64, E> {
+		Ok(v as u64)
+	}
+	fn visit_u32<E: de::Error>(self, v: u32) -> Result<u64, E> {
+		Ok(v as u64)
+	}
+	fn visit_u64<E: de::Error>(self, v: u64) -> Result<u64, E> {
+		Ok(v)
+	}
+	fn visit_f32<E: de::Error>(self, v: f32) -> Result<u64, E> {
+		Ok(v.to_bits() as u64)
+	}
+	fn visit_f64<E: de::Error>(self, v: f64) -> Result<u64, E> {
+		Ok(v.to_bits())
+	}
+	fn visit_str<E: de::Error>(self, v: &str) -> Result<u64, E> {
+		Ok(v.len() as u64 * 31)
+	}
+	fn visit_bytes<E: de::Error>(self, v: &[u8]) -> Result<u64, E> {
+		Ok(v.len() as u64 * 37)
+	}
+	fn visit_seq<A: SeqAccess<'de>>(self, mut s: A) -> Result<u64, A::Error> {
+		let mut acc = 7u64;
+		while let Some(v) = s.next_element_seed(SumSeed)? {
+			acc = acc.wrapping_mul(131).wrapping_add(v);
+		}
+		Ok(acc)
+	}
+	fn visit_map<A: MapAccess<'de>>(self, mut m: A) -> Result<u64, A::Error> {
+		let mut acc = 11u64;
+		while let Some(k) = m.next_key_seed(SumSeed)? {
+			let v = m.next_value_seed(SumSeed)?;
+			acc = acc.wrapping_mul(137).wrapping_add(k).wrapping_add(v);
+		}
+		Ok(acc)
+	}
+}
